@@ -4,7 +4,7 @@ import numpy as np
 from common import *
 
 ID = "C18"
-THEOREM_FILES = ["Summer.Props.C18", "Summer.Props.C18Euler", "Summer.Props.C01Rates", "Summer.Props.C07Pipeline"]
+THEOREM_FILES = ["Summer.Props.C18", "Summer.Props.C18Euler", "Summer.Props.C18EndToEnd", "Summer.Props.C01Rates", "Summer.Props.C07Pipeline"]
 TASK = "task"
 RULE = ("programs with non-negative rates / adjustments / mixing / infectiousness and no absolute flows; boundary states: every subset of "
         "compartments emptied when the model has <= 4 compartments, sampled subsets above, emptied entries 0 or -2^-10, every mixing "
